@@ -1,10 +1,32 @@
 /-! Model of `/repo/schema.go`: the `Schema` value, its hand-written JSON unmarshaller
 (`Schema.UnmarshalJSONFrom`, schema.go:70) and marshaller (`Schema.MarshalJSONTo`, schema.go:100),
 together with the default struct decoding / encoding rules of `github.com/go-json-experiment/json`
-that the hand-written code relies on. The library rules were determined by experiment against the
-real library (see the comment on each definition); JSON *text* (whitespace, escapes, syntax errors,
-UTF-8 validity) is outside the model: a document is a `Json` tree with ordered members, duplicates
-preserved. Core Lean only. -/
+that the hand-written code relies on. JSON *text* (whitespace, escapes, syntax errors, UTF-8
+validity) is outside the model: a document is a `Json` tree with ordered members, duplicates
+preserved. Core Lean only.
+
+Library rules, determined by experiment against the pinned library version (small Go programs run
+against the real `avro.SchemaFromString` / `Schema.Marshal`; every row is also in the fixed corpus of
+harness/schema.go and so re-checked on every run):
+
+| document | observed |
+|---|---|
+| unknown member (`doc`, `default`, …, also `""`) | ignored, value only syntax-checked |
+| member names | case-sensitive: `{"Type":"int"}` leaves Type empty; `{"TYPE":…,"type":…}` is no duplicate |
+| duplicate member name, known or unknown, any depth (also inside ignored values; `\u0074ype` = `type`) | error |
+| `"size":"4"`, `"size":true`, `"fields":{}`, `"name":1`, `"symbols":"a"`, `"symbols":["a",1]`, `"fields":[1]` | error |
+| `"type":{…}` / `"type":[…]` / `"type":1` inside an object (`SchemaObject.Type` is a Go string) | error |
+| `null` for a string / int / slice attribute; `null` as a record field; `null` as a symbol | zero value ("" / 0 / nil / empty field / "") |
+| `null` where a `Schema` is expected (`items`, `values`, field `type`, union branch, top level) | error (UnmarshalJSONFrom is called and rejects the token) |
+| `"size":4.0`, `4e0`, `1E2`, `1e400` | error (only integer syntax); `-0` → 0; `-3` accepted |
+| `"size":9223372036854775808`, `-9223372036854775809` | error (out of range of Go int) |
+| top-level number / `true` / `false` / `null` | error |
+| `[]` | accepted: `{Type:"union", Union:[]}`; marshals as the string `"union"` |
+| `{}`, `{"name":"a"}`, `{"type":"array"}` | accepted with zero attributes |
+| `{"type":"record","size":4,"items":"int"}` | accepted, attributes stored; NOT written by Marshal |
+| Marshal: nil `Fields` / `Symbols` | `[]`; field with empty name / zero type: member omitted (`omitempty`); zero `Items` → `""` |
+| Marshal of a string that is not valid UTF-8 | error (outside the model: Lean strings are Unicode) |
+-/
 namespace Avro
 
 /-- A JSON document as a tree. Object members are ORDERED and may contain duplicate names (the
